@@ -387,6 +387,14 @@ class FreeEnergy(InterpolatableFunction):
                         f"vev={ode.y}"
                     )
                     break
+                if TList.size > 0 and abs(ode.t - TList[-1]) <= 1e-12 * T0:
+                    # The integrator's final micro-step onto the end of the range:
+                    # replace the previous node rather than storing two abscissae a
+                    # few ulp apart, which would spoil the spline at that end.
+                    TList[-1] = ode.t
+                    fieldList[-1] = ode.y
+                    potentialEffList[-1] = potentialEffT
+                    continue
                 # append results to lists
                 TList = np.append(TList, [ode.t], axis=0)
                 fieldList = np.append(fieldList, [ode.y], axis=0)
